@@ -19,6 +19,9 @@ import time
 import hashlib
 import traceback
 import multiprocessing as mp
+import warnings
+
+warnings.filterwarnings('ignore')
 
 VERIF = os.path.dirname(os.path.dirname(os.path.abspath(__file__)))
 REPO = os.environ.get('KNEE_REPO', '/repo')
